@@ -921,6 +921,40 @@ def witness(kind, fmt):
                     "expected": "images numbered in document order: a.png = 1, b.gif = 2",
                     "observed": [("a.png" if o[0] == A else "b.gif" if o[0] == B else "?", o[2].get("image_number")) for o in obs]}
         return None
+    if kind in ("slide-target", "drawing-dir", "sheet-order"):
+        def files_of(data):
+            z = zipfile.ZipFile(io.BytesIO(data))
+            return {n: z.read(n) for n in z.namelist()}
+        if kind == "slide-target":
+            for tgt in (b"/ppt/slides/slide1.xml", b"./slides/slide1.xml", b"../ppt/slides/slide1.xml"):
+                sc = simple("pptx", ["relative"], 2, 1)
+                f = files_of(build_pptx(sc))
+                f["ppt/_rels/presentation.xml.rels"] = f["ppt/_rels/presentation.xml.rels"].replace(b'Target="slides/slide1.xml"', b'Target="' + tgt + b'"')
+                obs = observe(read("pptx", zip_bytes(f)))
+                if [o[0] for o in obs] != [e[0] for e in expected(sc)]:
+                    return {"target": "pptx: iterate_images()", "aspect": "resolution", "inputs": dict(sc.describe(), presentation_rels=f"slide 1 is referenced as Target={tgt.decode()!r}"),
+                            "expected": "2 images (one per slide), bytes identical", "observed": f"{len(obs)} images: the slide part is not found and its picture is lost"}
+            return None
+        if kind == "drawing-dir":
+            sc = simple("xlsx", ["relative"], 1, 1)
+            g = {k.replace("xl/drawings/", "xl/dr/"): v for k, v in files_of(build_xlsx(sc)).items()}
+            g["xl/worksheets/_rels/sheet1.xml.rels"] = g["xl/worksheets/_rels/sheet1.xml.rels"].replace(b"../drawings/drawing1.xml", b"../dr/drawing1.xml")
+            obs = observe(read("xlsx", zip_bytes(g)))
+            if [o[0] for o in obs] != [e[0] for e in expected(sc)]:
+                return {"target": "xlsx: iterate_images()", "aspect": "resolution", "inputs": dict(sc.describe(), drawing_part="xl/dr/drawing1.xml (relationships in xl/dr/_rels/drawing1.xml.rels)"),
+                        "expected": "1 image", "observed": f"{len(obs)} images: the drawing's relationship part is looked up under a name derived by text replacement of 'drawings/'"}
+            return None
+        sc = Scenario("xlsx", [[], [Anchor("xl/media/a.png")]], {"xl/media/a.png": A})
+        f = files_of(build_xlsx(sc))
+        wb = f["xl/_rels/workbook.xml.rels"]
+        f["xl/_rels/workbook.xml.rels"] = wb.replace(b"worksheets/sheet1.xml", b"worksheets/TMP").replace(b"worksheets/sheet2.xml", b"worksheets/sheet1.xml").replace(b"worksheets/TMP", b"worksheets/sheet2.xml")
+        c = read("xlsx", zip_bytes(f))
+        got = [(sh.name, [list(r) for r in sh.data], len(sh.images)) for sh in c.sheets]
+        bad = [g for g in got if (g[1] == [["v2"]]) != (g[2] == 1)]
+        if bad:
+            return {"target": "xlsx: iterate_units()", "aspect": "unit", "inputs": dict(sc.describe(), workbook_rels="tab 1 -> worksheets/sheet2.xml (cell v2, has the picture), tab 2 -> worksheets/sheet1.xml (cell v1)"),
+                    "expected": "the picture on the sheet whose cell is v2", "observed": f"(sheet, cells, images) = {got}"}
+        return None
     if kind == "dangling":
         # unit 2 places a picture whose relationship id exists only in the relationship part of unit 1
         sc = Scenario(fmt, [[Anchor(f"{md}/a.png")], [Anchor(f"{md}/a.png", "relative", "dangling")], [Anchor(f"{md}/b.gif")]],
@@ -973,6 +1007,11 @@ def search(ob, wit=None):
         return check_resolver("_resolve_drawing_path")
     if "lookup-table-scope" in ob:
         return witness("dangling", fmt)
+    for lab, kind in (("#slide-part", "slide-target"), ("#drawing-relationship-part", "drawing-dir"), ("#sheet-relationship-part", "sheet-order")):
+        if lab in ob:
+            return witness(kind, fmt)
+    if "#slide-relationship-part" in ob:
+        return sweep("pptx", ("resolution", "bytes"))
     if "/resolution#" in ob:
         if fmt == "xlsx":
             return witness("resolution", "xlsx") or check_resolver("_resolve_image_path")
@@ -1045,6 +1084,8 @@ def exclusion_sweep(kind, fmt):
     if kind == "order":
         return first_failure(gen_scenarios(fmt, 7, 12, styles=("relative",), kinds=("embedded",), share=False, max_units=1 if fmt == "epub" else 3),
                              ("resolution", "bytes"), dedup=fmt in ("odt", "odg"))
+    if kind in ("slide-target", "drawing-dir", "sheet-order"):
+        return first_failure(gen_scenarios(fmt, 9, 12, styles=("relative", "absolute"), kinds=("embedded", "missing")), ("resolution", "bytes", "unit"))
     if kind == "odf-dot-href":
         return first_failure(gen_scenarios(fmt, 8, 12, styles=("relative",), kinds=("embedded", "missing", "external")), ("resolution", "bytes"), dedup=fmt in ("odt", "odg"))
     return None
